@@ -12,7 +12,8 @@ from kverif.common import Deadline, case_rng, stable_hash, tier_value
 
 ID = 'C17'
 LEVEL = 'exploration'
-EXHAUSTIVE = False
+EXHAUSTIVE = {'quick': False, 'thorough': True}
+EXHAUSTIVE_SCOPE = 'thorough tier: every (<=3 layers x <=2 factors, costs in {0,1,2,3}, every set partition of <=4 workers, colocate on/off) case is enumerated; the quick tier strides through that space (1/7 per seed); random large cases are sampled in both'
 RULE = ('exhaustive small domain (<=3 layers x <=2 factors, costs in {0,1,2,3}, every partition of <=4 workers into disjoint groups, colocate on/off) '
         'plus random cases (<=40 layers, <=64 workers, int/float/huge costs, unequal groups); non-trivial: >=2 layers and >=2 workers; '
         'distinct = hash(work, groups, colocate); the whole enumeration is repeated under PYTHONHASHSEED 0/1/4242 and digests must agree')
